@@ -132,7 +132,12 @@ def run(a, seed, t_start):
         rest = [o for o in obls if _match_known(kf, cname, norm_id(o.id)) is None]
         if kn:
             discharge(kn, timeout_ms=5000)
-        discharge(rest, timeout_ms=timeout_s * 1000, hints=HINTS.get(cname))
+        # round 1: a short attempt by one solver configuration (most obligations need well under a second); round 2: what is
+        # left gets the whole portfolio and the case analyses, with the cores to itself
+        discharge(rest, timeout_ms=8000, hints=HINTS.get(cname), quick_only=True)
+        left = [o for o in rest if o.verdict == "undecided" and not o.expect_refuted]
+        if left:
+            discharge(left, timeout_ms=timeout_s * 1000, hints=HINTS.get(cname))
         # one escalation (x3) for anything left open
         open_ = [o for o in rest if (o.verdict != "discharged") and not o.expect_refuted]
         if open_:
